@@ -152,7 +152,8 @@ impl ProcOut {
 /// 2 = scrubbed + unusual environment, other cwd, other HOME. Err = spawn failure / timeout.
 fn run_driver(bin: &Path, dir: &Path, proj: &Project, variant: usize) -> Result<ProcOut, String> {
     use std::process::{Command, Stdio};
-    let out_file = dir.join(format!("xproc-{}.lua", variant));
+    // variants >= 3: an output path that cannot be written (its directory does not exist), the same path for all of them
+    let out_file = if variant >= 3 { dir.join("xproc-missing-dir").join("out.lua") } else { dir.join(format!("xproc-{}.lua", variant)) };
     let so = dir.join(format!("xproc-{}.stdout", variant));
     let se = dir.join(format!("xproc-{}.stderr", variant));
     // what an earlier compilation left at the output path must not matter: variant 1 finds a longer stale file there,
@@ -950,6 +951,25 @@ impl C16 {
                     let env = if v == 2 { "changed-environment" } else { "same-environment" };
                     let how = format!("fresh process 0 vs fresh process {} ({})", v, env);
                     return self.violation(case, format!("process/{}-differs/{}", what, env), format!("two runs of the driver binary differ in {}", what), &how, runs[0].describe(), runs[v].describe());
+                }
+            }
+            // a failing write is part of the claim as well: two processes that cannot write the output file say the same
+            if matches!(&first, Outcome::Accepted(_)) {
+                let a = run_driver(bin, dir, proj, 3);
+                let b = run_driver(bin, dir, proj, 4);
+                if let (Ok(a), Ok(b)) = (a, b) {
+                    labels.add("xproc:unwritable-output-compared");
+                    if a != b && !(a.code == Some(101) && b.code == Some(101)) {
+                        let what = if a.stdout != b.stdout { "stdout" } else if a.code != b.code { "exit-status" } else if a.file != b.file { "output-file" } else { "stderr" };
+                        return self.violation(
+                            case,
+                            format!("process/{}-differs/unwritable-output", what),
+                            format!("two runs of the driver binary that cannot write their output file differ in {}", what),
+                            "fresh process vs fresh process, `-o <missing directory>/out.lua`",
+                            a.describe(),
+                            b.describe(),
+                        );
+                    }
                 }
             }
             // the processes agree with each other; they must also agree with the library result
